@@ -313,38 +313,40 @@ Inductive event :=
 | EPut (forced : bool) (seen : delta)        (* a put on the real publish queue and what it carried *)
 | ECheck (data rep : store).                 (* a snapshot: the real store and the real client replica *)
 
-Definition last_delta (q : list delta) : delta := last q empty_delta.
-
-Fixpoint check_events (s : mgr) (evs : list event) : bool :=
+(* [rep] is the client replica kept incrementally: rep = replica (s_queue s)
+   (Proofs/StoreProofs.v: check_events_rep) *)
+Fixpoint check_events (s : mgr) (rep : store) (evs : list event) : bool :=
   match evs with
   | [] => negb (s_err s)
-  | EOp o :: r => check_events (step s o) r
+  | EOp (OpInit fresh) :: r => check_events (step s (OpInit fresh)) (if fresh then [] else rep) r
+  | EOp o :: r => check_events (step s o) rep r
   | EPut forced seen :: r =>
       let ok_pending := forced || s_pubpend s in
       let s' := step s (OpPut forced) in
-      ok_pending && delta_eqb (last_delta (s_queue s')) seen && check_events s' r
-  | ECheck data rep :: r =>
-      store_view_eqb (s_data s) data && store_view_eqb (replica (s_queue s)) rep && check_events s r
+      ok_pending && delta_eqb (s_pub s) seen && check_events s' (client_apply rep (s_pub s)) r
+  | ECheck data rp :: r =>
+      store_view_eqb (s_data s) data && store_view_eqb rep rp && check_events s rep r
   end.
 
 Definition case := list event.
-Definition check_case (c : case) : bool := check_events (init_mgr []) c.
+Definition check_case (c : case) : bool := check_events (init_mgr []) [] c.
 
-(* debugging aid: index of the first failing event and the model's state summary there *)
-Fixpoint first_bad (k : nat) (s : mgr) (evs : list event) : option (nat * mgr) :=
+(* debugging aid: index of the first failing event and the model's state there *)
+Fixpoint first_bad (k : nat) (s : mgr) (rep : store) (evs : list event) : option (nat * mgr * store) :=
   match evs with
-  | [] => if s_err s then Some (k, s) else None
-  | EOp o :: r => first_bad (S k) (step s o) r
+  | [] => if s_err s then Some (k, s, rep) else None
+  | EOp (OpInit fresh) :: r => first_bad (S k) (step s (OpInit fresh)) (if fresh then [] else rep) r
+  | EOp o :: r => first_bad (S k) (step s o) rep r
   | EPut forced seen :: r =>
-      let s' := step s (OpPut forced) in
-      if (forced || s_pubpend s) && delta_eqb (last_delta (s_queue s')) seen then first_bad (S k) s' r
-      else Some (k, s')
-  | ECheck data rep :: r =>
-      if store_view_eqb (s_data s) data && store_view_eqb (replica (s_queue s)) rep then first_bad (S k) s r
-      else Some (k, s)
+      if (forced || s_pubpend s) && delta_eqb (s_pub s) seen
+      then first_bad (S k) (step s (OpPut forced)) (client_apply rep (s_pub s)) r
+      else Some (k, s, rep)
+  | ECheck data rp :: r =>
+      if store_view_eqb (s_data s) data && store_view_eqb rep rp then first_bad (S k) s rep r
+      else Some (k, s, rep)
   end.
 Definition model_out (c : case) : option (nat * (store * store * delta)) :=
-  match first_bad 0 (init_mgr []) c with
-  | Some (k, s) => Some (k, (s_data s, replica (s_queue s), last_delta (s_queue s)))
+  match first_bad 0 (init_mgr []) [] c with
+  | Some (k, s, rep) => Some (k, (s_data s, rep, s_pub s))
   | None => None
   end.
